@@ -25,8 +25,8 @@ RULE = (
 ASSUMPTIONS = ["docstrings are rendered by the harness, not by doctrans", "no positional-only parameters and no *args (quantifier text)"]
 CORE_ALLOWED = ()
 FRONTIER_KNOBS = ("partial_doc", "out_of_order", "kwarg_undocumented", "untyped_doc_entry", "name_default",
-                  "no_annotation_no_doctype", "untyped_with_default", "class_partial_kwarg")
-FLOORS = {"has_default": 0.3, "kind=method": 0.1, "kind=class_init": 0.1, "partial_doc_prefix": 0.05, "has_kwarg": 0.1}
+                  "no_annotation_no_doctype", "untyped_with_default", "class_partial_kwarg", "inmemory_conflict", "inmemory_partial_kwarg", "inmemory_no_params")
+FLOORS = {"inmemory": 0.1, "has_default": 0.3, "kind=method": 0.1, "kind=class_init": 0.1, "partial_doc_prefix": 0.05, "has_kwarg": 0.1}
 NAMES = domain.NAMES
 TYPES = ("int", "str", "float", "bool", "Optional[int]", "List[str]", "np.ndarray", "Literal['a', 'b']", "Union[int, float]")
 DEFAULTS = {"int": ("5", "-3", "0", "100"), "str": ("'mnist'", "'two words'"), "float": ("0.5", "1e-07", "-0.25"), "bool": ("True", "False"),
@@ -56,8 +56,11 @@ def _param(draw, name, want_default):
 @st.composite
 def _case(draw, knob):
     kind = draw(st.sampled_from(("function", "function", "method", "method", "class_init")))
+    inmemory = (knob is None and kind != "method" and draw(st.integers(0, 3)) == 0) or knob in ("inmemory_conflict", "inmemory_partial_kwarg")
+    if inmemory and kind == "method":
+        kind = "function"
     first = None if kind == "function" else ("self" if kind == "class_init" else draw(st.sampled_from(("self", "cls"))))
-    n = draw(st.integers(0 if knob is None else 2, 5))
+    n = draw(st.integers((1 if inmemory else 0) if knob is None else 2, 5))  # a live function without parameters: finding KF-U09
     names = draw(st.lists(st.sampled_from(NAMES), min_size=n, max_size=n, unique=True))
     n_pos = draw(st.integers(0, n))
     k_def = draw(st.integers(0, n_pos))  # number of trailing positional parameters with a default
@@ -100,7 +103,7 @@ def _case(draw, knob):
     elif knob is None:
         annotate = True if not documented else draw(st.booleans())
         doc_types = True if not annotate else draw(st.booleans()) if style == "rest" else True
-        if draw(st.integers(0, 3)) == 0 and allp:
+        if draw(st.integers(0, 3)) == 0 and allp and not inmemory:
             conflict = draw(st.sampled_from([p["name"] for p in allp]))
             annotate, doc_types = True, True
     elif knob == "untyped_with_default":
@@ -113,7 +116,21 @@ def _case(draw, knob):
         if tgt in args:
             for p in args[args.index(tgt):]:
                 p["default"] = p["default"] or "stdout"
-    return {"kind": kind, "first": first, "args": args, "kwonly": kwonly, "kwarg": kwarg, "style": style,
+    if inmemory:
+        for p_ in args + kwonly:
+            if p_["typ"] == "np.ndarray":  # a live class object does not know the alias it was imported under
+                p_["typ"], p_["default"] = "int", (None if p_["default"] is None else "5")
+    if knob == "inmemory_no_params":
+        inmemory, kind, first, args, kwonly, kwarg, documented, doc_kwarg = True, "function", None, [], [], None, [], False
+    if knob == "inmemory_conflict" and allp:
+        conflict = draw(st.sampled_from([p["name"] for p in allp]))
+        annotate, doc_types = True, True
+    if knob == "inmemory_partial_kwarg" and len(allp) >= 2:
+        documented = [p["name"] for p in allp][: max(1, len(allp) - 1)]
+        kwarg, doc_kwarg = "kwargs", True
+    elif inmemory and kwarg and doc_kwarg and len(documented) < len(allp):
+        kwarg, doc_kwarg = None, False
+    return {"inmemory": inmemory, "kind": kind, "first": first, "args": args, "kwonly": kwonly, "kwarg": kwarg, "style": style,
             "documented": list(documented), "doc_kwarg": doc_kwarg, "doc_types": doc_types, "annotate": annotate,
             "conflict": conflict, "summary": "Summary of the thing %s" % draw(st.sampled_from(domain.WORDS))}
 
@@ -126,6 +143,7 @@ def valid(case):
     try:
         src = render(case)
         ast.parse(src)
+        case.setdefault("inmemory", False)
         names = [p["name"] for p in case["args"] + case["kwonly"]]
         return len(names) == len(set(names)) and all(d in names for d in case["documented"]) and case["style"] in ("rest", "numpydoc", "google")
     except Exception:
@@ -235,6 +253,44 @@ def python_view(case, src):
     return {"doc": case["summary"], "params": params}
 
 
+_n = [0]
+
+
+def _run_inmemory(case, src, expected, tags, nontrivial):
+    """The same definition as a live object (imported from a temporary module): parse.function / parse.class_ go through
+    inspect (signature, getsource, getdoc)."""
+    import importlib
+    import os
+    import shutil
+    import tempfile
+
+    from doctrans import parse
+
+    _n[0] += 1
+    name = "c07mod_%d_%d" % (os.getpid(), _n[0])
+    d = tempfile.mkdtemp(prefix="c07_")
+    try:
+        with open(os.path.join(d, name + ".py"), "w") as f:
+            f.write("from typing import *\nimport sys\nstdout = sys.stdout\n\n\nclass _Np(object):\n    ndarray = list\n\n\nnp = _Np()\n\n\n" + src)
+        sys.path.insert(0, d)
+        importlib.invalidate_caches()
+        try:
+            m = importlib.import_module(name)
+            obj = getattr(m, "Target" if case["kind"] == "class_init" else "target")
+            got = parse.class_(obj, merge_inner_function="__init__") if case["kind"] == "class_init" else parse.function(obj)
+        except Exception as e:
+            return CaseResult([raise_disc(e, "parse-inmemory")], tags, nontrivial, "in-memory parse raised %s" % type(e).__name__)
+    finally:
+        if d in sys.path:
+            sys.path.remove(d)
+        sys.modules.pop(name, None)
+        shutil.rmtree(d, ignore_errors=True)
+    per = {p["name"]: ({"undocumented"} if "doc" not in p else set()) | ({"untyped"} if "typ" not in p else set())
+           | ({"has_default"} if "default" in p else set()) | ({"kwarg"} if p["name"].endswith("kwargs") else set()) for p in expected["params"]}
+    discs = compare_ir(expected, got, Policy(returns=False), per)
+    return CaseResult(discs, tags, nontrivial, "in-memory %s: %s" % (case["kind"], "ok" if not discs else discs[0].aspect))
+
+
 def _absent_ok(exp, got):
     # a parameter without default has none in Python's view; doctrans may not invent one
     return False
@@ -274,6 +330,10 @@ def run_case(case):
         tags.add("has_kwonly")
     if case["kind"] == "class_init" and case["kwarg"] and case["doc_kwarg"] and 0 < ndoc < len(allp):
         tags.add("class_partial_kwarg")
+    if case.get("inmemory") and case["kwarg"] and case["doc_kwarg"] and ndoc < len(allp):
+        tags.add("inmemory_partial_kwarg")
+    if case.get("inmemory") and not allp and not case["kwarg"]:
+        tags.add("inmemory_no_params")
     if any(p["default"] is None for p in case["args"]) and any(p["default"] is not None for p in case["args"]):
         tags.add("mixed_positional_defaults")
     nontrivial = len(allp) >= 3 and "has_default" in tags and bool(
@@ -285,6 +345,9 @@ def run_case(case):
 
         raise env.HarnessError("generated definition does not execute: %s\n%s" % (e, src))
     tree = ast.parse(src)
+    if case.get("inmemory"):
+        tags.add("inmemory")
+        return _run_inmemory(case, src, expected, tags, nontrivial)
     try:
         if case["kind"] == "class_init":
             got = parse.class_(tree.body[0], merge_inner_function="__init__")
